@@ -33,7 +33,11 @@ def bounded(tier, seed, fallback_for):
     return [driver.run_harness(ID, "h_fs.py", [ID, tier, str(seed)], "check-command:" + ID,
                                "8 files holding one function of length 15,16,30,31,60,61,90,31 and 3 directories; check given every single path, "
                                "every 2nd ordered pair (thorough: all), 20 random 3..5-path lists (thorough 300), each with and without --quiet",
-                               "exit status, listed functions, summary count and silence compared with values computed from the known lengths")]
+                               "exit status, listed functions, summary count and silence compared with values computed from the known lengths; "
+                               "the overview printed by three scans in one process"),
+            driver.run_harness(ID, "h_report.py", [ID, tier, str(seed)], "rendered-findings:" + ID,
+                               "51 reports x full x repository: findings of the real print_findings (text, Markdown with and without repository links)",
+                               "listed lengths = the lengths > 30 longest first, symbol = warning for 31..60 and cross for > 60, exact 'N more rows'")]
 
 
 def lemmas(eng):
